@@ -21,9 +21,9 @@ echo "== suite with change: $suite"
 # 2. demo with and without
 run_demo() { (cd "$W/ociregistry" && bash -c "$democmd") >/dev/null 2>&1; }
 with=pass; for i in 1 2 3; do run_demo || { with=FAIL; break; }; done
-(cd "$W" && git stash -q -- $(git diff --name-only))
+(cd "$W" && git apply -R patch.diff) || echo "!! cannot reverse patch.diff"
 without=pass; run_demo || without=FAIL
-(cd "$W" && git stash pop -q)
+(cd "$W" && git apply patch.diff) || echo "!! cannot re-apply patch.diff"
 echo "== demo with change: $with (want FAIL) ; without: $without (want pass)"
 # 3. checks
 caught=""
@@ -46,7 +46,7 @@ try: meta=json.load(open(p))
 except Exception: meta={}
 meta.update({"seed_id":id,"breaks_property":prop,"suite_with_change":suite,"demo_with_change":w,"demo_without_change":wo,
   "demo_file":demo,"checks_run":checks.split(),"caught_by":caught.split(),
-  "how_run":"tools/seedcheck.sh: suite in the scratch worktree; demo with/without (git stash); checks via VERIF_REPO=<worktree> ./run <id> quick"})
+  "how_run":"tools/seedcheck.sh: suite in the scratch worktree; demo with/without (git apply -R patch.diff); checks via VERIF_REPO=<worktree> ./run <id> quick"})
 json.dump(meta,open(p,'w'),indent=1)
 PY
 rm -rf "$W/.out" "$W/.aside"
